@@ -5,7 +5,7 @@ exactly the keys the incremental get_key drive gives for that read - which ties
 Input.find_key's one-byte-at-a-time loop and its full= computation to the decoder facts
 judged in c03.py."""
 from .. import keysengine, plumbing
-from ..model.keys import Facts, Incomplete, drive
+from ..model.keys import Facts, drive_partial
 
 ENC = {"ascii": "ascii", "latin-1": "latin-1", "utf-8": "utf-8"}
 
@@ -60,15 +60,15 @@ def judge_reads(ctx, sess, facts, case, reads):
     from curtsies import events
     km = keysengine.modes()[sess.mode]
     nontrivial = sum(map(len, reads)) > 1
+    carry = b""
     for i, data in enumerate(reads):
         sig = ("C03e2e", sess.encoding, sess.mode, sess.pt, tuple(reads[:i + 1]))
+        # the start of a keypress that ends a read is kept by Input and completed by the next read
         try:
-            want = drive(events.get_key, [data], sess.encoding, km)
+            want, carry = drive_partial(events.get_key, carry + data, sess.encoding, km)
             want_exc = None
-        except Incomplete:
-            want, want_exc = None, "ValueError"
         except Exception as ex:  # noqa
-            want, want_exc = None, type(ex).__name__
+            want, want_exc, carry = None, type(ex).__name__, b""
         try:
             got = sess.read_all(data)
             got_exc = None
@@ -91,6 +91,8 @@ def judge_reads(ctx, sess, facts, case, reads):
         if got != want:
             sess.reset()
             return
+    if carry:
+        sess.reset()          # do not let a kept half keypress leak into the next history
 
 
 def run_case(ctx, case):
@@ -124,6 +126,12 @@ def run(ctx):
                 if len(T) > 1:
                     k = rng.randint(1, len(T) - 1)
                     todo.append([T[:k], T[k:]])
+            if enc == "utf-8":
+                # a multi-byte character whose bytes arrive in two reads
+                for ch in ("é", "Ж", "一", "€", "😀"):
+                    b = ch.encode("utf-8")
+                    for k in range(1, len(b)):
+                        todo.append([b"a" + b[:k], b[k:] + b"z"])
             for _ in range(40 if ctx.quick else 5000):
                 todo.append([b"".join(units_for(facts, rng) for _ in range(rng.randint(1, 5)))
                              for _ in range(rng.randint(1, 3))])
